@@ -208,7 +208,7 @@ func runRace(ctx context.Context, c raceCase) (*violation, error) {
 	}
 	r.Eval()
 	r.Class("race-final:" + o)
-	st := histState{disturbed: true, mustHit: putOK}
+	st := histState{disturbed: c.Procs[0].CrashAt >= 0, mustHit: putOK}
 	if key, msg := judgeRead(st, o, d); key != "" {
 		return &violation{key, "after the race: " + msg + "; history: " + strings.Join(trace, " ")}, nil
 	}
